@@ -1,6 +1,9 @@
 import json
 props=[json.loads(l) for l in open('/verif/properties.jsonl')]
-claimed=json.load(open('/verif/checks/claims.json'))
+import glob,os
+claimed={os.path.basename(f)[:-5]:json.load(open(f)) for f in sorted(glob.glob('/verif/checks/claims.d/C*.json'))}
+na_reason={}
+if os.path.exists('/verif/checks/not_applicable.json'): na_reason=json.load(open('/verif/checks/not_applicable.json'))
 checks=[]; na=[]
 for p in props:
     pid=p['id']
@@ -18,7 +21,7 @@ for p in props:
           "technique":c["technique"],
         })
     else:
-        na.append({"property_id":pid,"reason":"check not built yet in this round; planned per DESIGN.md section 6 (model-based, TLA+), no other technique substituted"})
+        na.append({"property_id":pid,"reason":na_reason.get(pid) or "check not built yet in this round; planned per DESIGN.md section 6 (model-based, TLA+), no other technique substituted"})
 m={
  "version":1,
  "setup_cmd":"cd /verif/harness && cargo build --offline -p vh -p fontc --bins",
